@@ -60,7 +60,16 @@ theorem set : ∀ args, Bodies.set args = runGen Desc.set args := by
     shape_simp
     have hu : Unk.fn (.lit .syntax) = fun _ => some (BErr.lit .syntax) := rfl
     rw [hu]
-    cases scanOpts setOpts (fun _ => some (BErr.lit .syntax)) opts <;> rfl
+    cases scanOpts setOpts (fun _ => some (BErr.lit .syntax)) opts with
+    | error e => rfl
+    | ok s =>
+      simp only [finWithChecks, firstFiring, Cond.eval, Desc.setChecks, Desc.expireChecks, Desc.getexChecks, Desc.luaSetChecks,
+        List.map_cons, List.map_nil]
+      by_cases c1 : (s.has 0 && s.has 1) = true
+      · simp [c1]
+      · by_cases c2 : (s.has 7 && (s.has 3 || s.has 4 || s.has 5 || s.has 6)) = true
+        · simp [c1, c2]
+        · simp [c1, c2]
 
 theorem setex (px : Bool) : ∀ args, Bodies.setex px args = runGen (Desc.setex px) args := by
   intro args
@@ -86,7 +95,16 @@ theorem expire (ctor : Bytes) : ∀ args, Bodies.expire ctor args = runGen (Desc
     | error e => rfl
     | ok t =>
       dsimp only
-      cases scanOpts expireOpts (fun w => some (BErr.fmt .unsupportedOption w)) opts <;> rfl
+      cases scanOpts expireOpts (fun w => some (BErr.fmt .unsupportedOption w)) opts with
+      | error e => rfl
+      | ok s =>
+        simp only [finWithChecks, firstFiring, Cond.eval, Desc.setChecks, Desc.expireChecks, Desc.getexChecks, Desc.luaSetChecks,
+          List.map_cons, List.map_nil]
+        by_cases c1 : (s.has 0 && (s.has 1 || s.has 2 || s.has 3)) = true
+        · simp [c1]
+        · by_cases c2 : (s.has 2 && s.has 3) = true
+          · simp [c1, c2]
+          · simp [c1, c2]
 
 theorem getex : ∀ args, Bodies.getex args = runGen Desc.getex args := by
   intro args
@@ -96,7 +114,14 @@ theorem getex : ∀ args, Bodies.getex args = runGen Desc.getex args := by
     shape_simp
     have hu : Unk.fn (.lit .syntax) = fun _ => some (BErr.lit .syntax) := rfl
     rw [hu]
-    cases scanOpts getexOpts (fun _ => some (BErr.lit .syntax)) opts <;> rfl
+    cases scanOpts getexOpts (fun _ => some (BErr.lit .syntax)) opts with
+    | error e => rfl
+    | ok s =>
+      simp only [finWithChecks, firstFiring, Cond.eval, Desc.setChecks, Desc.expireChecks, Desc.getexChecks, Desc.luaSetChecks,
+        List.map_cons, List.map_nil]
+      by_cases c1 : List.count true [s.has 0, s.has 1, s.has 2, s.has 3, s.has 4] > 1
+      · simp [c1]
+      · simp [c1]
 
 theorem lmove : ∀ args, Bodies.lmove args = runGen Desc.lmove args := by
   intro args
@@ -321,7 +346,14 @@ theorem luaSet : ∀ args, Bodies.luaSet args = runGen Desc.luaSet args := by
     shape_simp
     have hu : Unk.fn (.fmt .luaUnknownSet) = fun w => some (BErr.fmt .luaUnknownSet w) := rfl
     rw [hu]
-    cases scanOpts luaSetOpts (fun w => some (BErr.fmt .luaUnknownSet w)) opts <;> rfl
+    cases scanOpts luaSetOpts (fun w => some (BErr.fmt .luaUnknownSet w)) opts with
+    | error e => rfl
+    | ok s =>
+      simp only [finWithChecks, firstFiring, Cond.eval, Desc.setChecks, Desc.expireChecks, Desc.getexChecks, Desc.luaSetChecks,
+        List.map_cons, List.map_nil]
+      by_cases c1 : (s.has 0 && s.has 1) = true
+      · simp [c1]
+      · simp [c1]
 
 theorem luaExpire : ∀ args, Bodies.luaExpire args = runGen Desc.luaExpire args := by
   intro args
@@ -361,13 +393,82 @@ macro "fin_ok" : tactic => `(tactic|
       | (simp only [Except.error.injEq] at heq; subst heq; simp; done)
       | (simp at heq; done)))
 
+theorem firstFiring_mem {s : Seen} {checks : List (Cond × Lit)} {l : Lit} (h : firstFiring s checks = some l) :
+    l ∈ checks.map (·.2) := by
+  induction checks with
+  | nil => simp [firstFiring] at h
+  | cons c cs ih =>
+    obtain ⟨cnd, lit⟩ := c
+    simp only [firstFiring] at h
+    split at h
+    · simp only [Option.some.injEq] at h; simp [h]
+    · simp [ih h]
+
+theorem finWithChecks_ok {checks : List (Cond × Lit)} {build : Seen → Cmd} {s : Seen} {c : Cmd}
+    (h : finWithChecks checks build s = .ok c) : c = build s ∧ firstFiring s checks = none := by
+  unfold finWithChecks at h
+  cases hf : firstFiring s checks with
+  | some l => rw [hf] at h; simp at h
+  | none => rw [hf] at h; simp only [Except.ok.injEq] at h; exact ⟨h.symm, rfl⟩
+
+theorem finWithChecks_err {checks : List (Cond × Lit)} {build : Seen → Cmd} {s : Seen} {e : BErr}
+    (h : finWithChecks checks build s = .error e) : ∃ l, firstFiring s checks = some l ∧ e = .lit l := by
+  unfold finWithChecks at h
+  cases hf : firstFiring s checks with
+  | some l => rw [hf] at h; simp only [Except.error.injEq] at h; exact ⟨l, rfl, h.symm⟩
+  | none => rw [hf] at h; simp at h
+
+/-- `FinOk` for a finishing function given by conflict rules: one token shape, everything else unreachable -/
+theorem finOk_of_checks (d : GenDesc) (checks : List (Cond × Lit)) (build : List Tok → Seen → Cmd)
+    (hfin : ∀ ts tv, d.fin ts tv = .error .unreachable ∨ ∃ s, d.fin ts tv = finWithChecks checks (build ts) s)
+    (hc : ∀ ts s, (build ts s).ctor ∈ d.ctors) (hl : ∀ l ∈ checks.map (·.2), l ∈ d.finLits) : FinOk d := by
+  intro ts tv
+  rcases hfin ts tv with h | ⟨s, h⟩
+  · rw [h]; exact Or.inl rfl
+  · rw [h]
+    cases hr : finWithChecks checks (build ts) s with
+    | ok c => rw [(finWithChecks_ok hr).1]; exact hc ts s
+    | error e =>
+      obtain ⟨l, hf, he⟩ := finWithChecks_err hr
+      exact Or.inr ⟨l, hl l (firstFiring_mem hf), he⟩
+
 theorem ping : FinOk Desc.ping := by unfold FinOk Desc.ping; fin_ok
 theorem select : FinOk Desc.select := by unfold FinOk Desc.select; fin_ok
 theorem auth : FinOk Desc.auth := by unfold FinOk Desc.auth; fin_ok
-theorem set : FinOk Desc.set := by unfold FinOk Desc.set; fin_ok
+theorem set : FinOk Desc.set := by
+  refine finOk_of_checks _ Desc.setChecks
+    (fun ts s => match ts with
+      | [k, v] => Bodies.mkSet k v (s.opt1 3) (s.opt1 4) (s.opt1 5) (s.opt1 6) (s.has 0) (s.has 1) (s.has 2) (s.has 7)
+      | _ => ⟨s2b "Set", []⟩) ?_ ?_ (by decide)
+  · intro ts tv
+    simp only [Desc.set]
+    split
+    · exact Or.inr ⟨_, rfl⟩
+    · exact Or.inl rfl
+  · intro ts s; split <;> simp [Desc.set, Bodies.mkSet]
 theorem setex (px : Bool) : FinOk (Desc.setex px) := by unfold FinOk Desc.setex; fin_ok
-theorem expire (c : Bytes) : FinOk (Desc.expire c) := by unfold FinOk Desc.expire; fin_ok
-theorem getex : FinOk Desc.getex := by unfold FinOk Desc.getex; fin_ok
+theorem expire (c : Bytes) : FinOk (Desc.expire c) := by
+  refine finOk_of_checks _ Desc.expireChecks
+    (fun ts s => match ts with
+      | [k, t] => ⟨c, [k, t, .b (s.has 0), .b (s.has 1), .b (s.has 2), .b (s.has 3)]⟩
+      | _ => ⟨c, []⟩) ?_ ?_ (by intro l hl; simp only [Desc.expire]; revert l; decide)
+  · intro ts tv
+    simp only [Desc.expire]
+    split
+    · exact Or.inr ⟨_, rfl⟩
+    · exact Or.inl rfl
+  · intro ts s; split <;> simp [Desc.expire]
+theorem getex : FinOk Desc.getex := by
+  refine finOk_of_checks _ Desc.getexChecks
+    (fun ts s => match ts with
+      | [k] => ⟨s2b "GetEx", [k, s.opt1 0, s.opt1 1, s.opt1 2, s.opt1 3, .b (s.has 4)]⟩
+      | _ => ⟨s2b "GetEx", []⟩) ?_ ?_ (by decide)
+  · intro ts tv
+    simp only [Desc.getex]
+    split
+    · exact Or.inr ⟨_, rfl⟩
+    · exact Or.inl rfl
+  · intro ts s; split <;> simp [Desc.getex]
 theorem lmove : FinOk Desc.lmove := by unfold FinOk Desc.lmove; fin_ok
 theorem spop : FinOk Desc.spop := by unfold FinOk Desc.spop; fin_ok
 theorem zadd (a : Arg) : FinOk (Desc.zadd a) := by unfold FinOk Desc.zadd; fin_ok
@@ -387,9 +488,127 @@ theorem aclGenpass : FinOk Desc.aclGenpass := by unfold FinOk Desc.aclGenpass; f
 theorem aclDryrun : FinOk Desc.aclDryrun := by unfold FinOk Desc.aclDryrun; fin_ok
 theorem aclLog : FinOk Desc.aclLog := by unfold FinOk Desc.aclLog; fin_ok
 theorem stub (t : Bytes) : FinOk (Desc.stub t) := by unfold FinOk Desc.stub; intro ts tv; simp
-theorem luaSet : FinOk Desc.luaSet := by unfold FinOk Desc.luaSet; fin_ok
+theorem luaSet : FinOk Desc.luaSet := by
+  refine finOk_of_checks _ Desc.luaSetChecks
+    (fun ts s => match ts with
+      | [k, v] => Bodies.mkSet k v (s.opt1 3) (s.opt1 4) .none .none (s.has 0) (s.has 1) (s.has 2) false
+      | _ => ⟨s2b "Set", []⟩) ?_ ?_ (by decide)
+  · intro ts tv
+    simp only [Desc.luaSet]
+    split
+    · exact Or.inr ⟨_, rfl⟩
+    · exact Or.inl rfl
+  · intro ts s; split <;> simp [Desc.luaSet, Bodies.mkSet]
 theorem luaExpire : FinOk Desc.luaExpire := by unfold FinOk Desc.luaExpire; fin_ok
 theorem luaZrange : FinOk Desc.luaZrange := by unfold FinOk Desc.luaZrange; fin_ok
 
 end Fin
+
+
+/-! ## the declared conflict rules are what the finishing functions test -/
+namespace Chk
+
+/-- a finishing function given by conflict rules satisfies `ChecksOk` by construction -/
+theorem of_checks (d : GenDesc) (build : List Tok → Seen → Cmd)
+    (hfin : ∀ ts s, d.fin ts (.seen s) = .error .unreachable ∨ d.fin ts (.seen s) = finWithChecks d.checks (build ts) s) :
+    ∀ ts s, match d.fin ts (.seen s) with
+      | .ok _ => firstFiring s d.checks = none
+      | .error (.lit l) => firstFiring s d.checks = some l
+      | .error .unreachable => True
+      | .error _ => False := by
+  intro ts s
+  rcases hfin ts s with h | h
+  · rw [h]; trivial
+  · rw [h]
+    cases hr : finWithChecks d.checks (build ts) s with
+    | ok c => exact (Fin.finWithChecks_ok hr).2
+    | error e =>
+      obtain ⟨l, hf, he⟩ := Fin.finWithChecks_err hr
+      subst he
+      exact hf
+
+theorem set : ChecksOk Desc.set := by
+  show ∀ ts s, _
+  refine of_checks Desc.set (fun ts s => match ts with
+      | [k, v] => Bodies.mkSet k v (s.opt1 3) (s.opt1 4) (s.opt1 5) (s.opt1 6) (s.has 0) (s.has 1) (s.has 2) (s.has 7)
+      | _ => ⟨[], []⟩) ?_
+  intro ts s
+  simp only [Desc.set]
+  split
+  · rename_i h; simp only [TailV.seen.injEq] at h; subst h; exact Or.inr rfl
+  · exact Or.inl rfl
+
+theorem expire (c : Bytes) : ChecksOk (Desc.expire c) := by
+  show ∀ ts s, _
+  refine of_checks (Desc.expire c) (fun ts s => match ts with
+      | [k, t] => ⟨c, [k, t, .b (s.has 0), .b (s.has 1), .b (s.has 2), .b (s.has 3)]⟩
+      | _ => ⟨[], []⟩) ?_
+  intro ts s
+  simp only [Desc.expire]
+  split
+  · rename_i h; simp only [TailV.seen.injEq] at h; subst h; exact Or.inr rfl
+  · exact Or.inl rfl
+
+theorem getex : ChecksOk Desc.getex := by
+  show ∀ ts s, _
+  refine of_checks Desc.getex (fun ts s => match ts with
+      | [k] => ⟨s2b "GetEx", [k, s.opt1 0, s.opt1 1, s.opt1 2, s.opt1 3, .b (s.has 4)]⟩
+      | _ => ⟨[], []⟩) ?_
+  intro ts s
+  simp only [Desc.getex]
+  split
+  · rename_i h; simp only [TailV.seen.injEq] at h; subst h; exact Or.inr rfl
+  · exact Or.inl rfl
+
+theorem luaSet : ChecksOk Desc.luaSet := by
+  show ∀ ts s, _
+  refine of_checks Desc.luaSet (fun ts s => match ts with
+      | [k, v] => Bodies.mkSet k v (s.opt1 3) (s.opt1 4) .none .none (s.has 0) (s.has 1) (s.has 2) false
+      | _ => ⟨[], []⟩) ?_
+  intro ts s
+  simp only [Desc.luaSet]
+  split
+  · rename_i h; simp only [TailV.seen.injEq] at h; subst h; exact Or.inr rfl
+  · exact Or.inl rfl
+
+/-- scan bodies without conflict rules never answer an error literal -/
+macro "chk_none" : tactic => `(tactic|
+  (show ∀ ts s, _
+   intro ts s
+   simp only [firstFiring]
+   split <;> rename_i x heq <;> (repeat' (split at heq)) <;> (try simp_all)))
+
+theorem zrangebyscore (o c : Arg) (m : Lit) (u : Fmt) : ChecksOk (Desc.zrangebyscore o c m u) := by
+  unfold Desc.zrangebyscore; chk_none
+theorem scan (c : Bytes) (k : Bool) (u : Fmt) : ChecksOk (Desc.scan c k u) := by
+  unfold Desc.scan
+  show ∀ ts s, _
+  intro ts s
+  simp [firstFiring]
+theorem sort : ChecksOk Desc.sort := by unfold Desc.sort; chk_none
+
+theorem ping : ChecksOk Desc.ping := rfl
+theorem select : ChecksOk Desc.select := rfl
+theorem auth : ChecksOk Desc.auth := rfl
+theorem setex (px : Bool) : ChecksOk (Desc.setex px) := rfl
+theorem lmove : ChecksOk Desc.lmove := rfl
+theorem spop : ChecksOk Desc.spop := rfl
+theorem zadd (a : Arg) : ChecksOk (Desc.zadd a) := rfl
+theorem zrange (c : Bytes) : ChecksOk (Desc.zrange c) := rfl
+theorem eval (c : Bytes) (l : Lit) : ChecksOk (Desc.eval c l) := rfl
+theorem command : ChecksOk Desc.command := rfl
+theorem setrange : ChecksOk Desc.setrange := rfl
+theorem setbit : ChecksOk Desc.setbit := rfl
+theorem getbit : ChecksOk Desc.getbit := rfl
+theorem incrbyfloat : ChecksOk Desc.incrbyfloat := rfl
+theorem optStr (c : Bytes) : ChecksOk (Desc.optStr c) := rfl
+theorem aclGenpass : ChecksOk Desc.aclGenpass := rfl
+theorem aclDryrun : ChecksOk Desc.aclDryrun := rfl
+theorem aclLog : ChecksOk Desc.aclLog := rfl
+theorem stub (t : Bytes) : ChecksOk (Desc.stub t) := rfl
+theorem luaExpire : ChecksOk Desc.luaExpire := rfl
+theorem luaZrange : ChecksOk Desc.luaZrange := rfl
+
+end Chk
+
 end RedisVerif.Grammar
